@@ -42,6 +42,8 @@ THEOREMS = [
     "PP.compact_not_single_line_newline_in_key",
     "PP.cli_total",
     "PP.cli_run_total",
+    "PP.writeResult_spec",
+    "PP.cli_escapes_unencodable",
     "PP.cli_reports_non_object",
     "PP.cli_reports_bad_task_level",
     "PP.cli_aborts_on_pformat_recursion",
@@ -195,6 +197,10 @@ def bad_lines():
         (b'{"task_uuid":"u","task_level":[1],"timestamp":1e999}\n', {"field": "timestamp", "json_type": "number", "value": "out-of-range"}),
         (b"[" * 100000 + b"\n", {"line": "deeply-nested-json"}),
         # valid JSON, a genuine Eliot message, one value nested 450 deep: json.loads and json.dumps cope, pprint does not
+        # lone surrogates where the formatters do not escape (aborted with UnicodeEncodeError at the write until 4ea2a53)
+        (b'{"task_uuid":"u\\ud800","task_level":[1],"timestamp":1.0,"x":1}\n', {"line": "lone-surrogate", "where": "task_uuid"}),
+        (b'{"task_uuid":"u","task_level":[1],"timestamp":1.0,"k\\udc00":1,"message_type":"m"}\n', {"line": "lone-surrogate", "where": "field-name"}),
+        (b'{"task_uuid":"u","task_level":["\\udc00",2],"timestamp":1.0}\n', {"line": "lone-surrogate", "where": "task_level"}),
         (b'{"task_uuid":"u","task_level":[1],"timestamp":1.0,"x":' + b"[" * DEEP + b"]" * DEEP + b"}\n",
          {"line": "deeply-nested-value", "format": "pretty"}),
     ]
@@ -223,6 +229,8 @@ def tolerated_lines(rng):
     # a file name decoded with surrogateescape, logged by a producer that escapes it; a line separator inside a value
     out.append(b'{"task_uuid":"u","task_level":[1],"timestamp":1.0,"path":"caf\\udce9","message_type":"m"}\n')
     out.append(b'{"task_uuid":"u","task_level":[1],"timestamp":1.0,"text":["a\\u2028b","\\ud83d"]}\n')
+    # lone surrogates where the formatters do not escape: task uuid, a field name, a level element
+    out.append(b'{"task_uuid":"\\udce9","task_level":[1],"timestamp":1.0,"action_type":"a\\ud83d","\\ud83d\\ude00 \\ud83d":[]}\n')
     return out
 
 
@@ -600,9 +608,13 @@ def abort_key(line, compact, local):
         return {"line": "not-json"}
     if not isinstance(v, dict):
         return {"line_json_type": json_type(v)}
-    if has_surrogate(list(v.values())):
+    if has_surrogate(v):
         clean = json.loads(re.sub(r"[\ud800-\udfff]", "?", json.dumps(v, ensure_ascii=False)))
         if real_cli(json.dumps(clean).encode() + b"\n", compact, local)["abort"] is None:
+            where = ("field-name" if any(has_surrogate(k) for k in v) else "task_uuid" if has_surrogate(v.get("task_uuid")) else
+                     "task_level" if has_surrogate(v.get("task_level")) else None)
+            if where:
+                return {"line": "lone-surrogate", "where": where}
             return {"line": "lone-surrogate-in-value", "format": "compact" if compact else "pretty"}
     shallow = {k: (x if depth(x) < 100 else []) for k, x in v.items()}
     if shallow != v and real_cli(json.dumps(shallow).encode() + b"\n", compact, local)["abort"] is None:
@@ -633,7 +645,8 @@ def expected_chunk(line, compact, local):
         return "Not an Eliot message: %s\n\n" % stripped
     r = real_format(v, compact, local)
     if "ok" in r:
-        return r["ok"] + "\n"
+        # names, uuid and level are written as they are; what a UTF-8 stream cannot encode appears escaped
+        return (r["ok"] + "\n").encode("utf-8", "backslashreplace").decode("utf-8")
     return None
 
 
